@@ -39,6 +39,8 @@ def modified_guard(n):
     modified flag)."""
     if n.kind != "branch":
         return False
+    if n["pruned"] is not None:
+        return False  # decided by a context constant (e.g. `force or ...`), not by the entry's state
     c = n["cond"]
     for x in c.walk():
         if x.kind == "sub" and x.args[1].kind == "const" and x.args[1].args[0] in ("hash", "modified") and cattr_origin(x) is not None:
